@@ -143,7 +143,7 @@ def _reconstruct_modulus_data(
     ln_modulus: NDArray[float64]
     if len(args) > 1 and num_procs > 1:
         with Pool(num_procs) as pool:
-            for ln_modulus, smoothing, interpolation in pool.imap_unordered(
+            for ln_modulus, smoothing, interpolation in pool.imap(
                 _reconstruct,
                 args,
             ):
